@@ -1,5 +1,6 @@
 import BppProofs.Lemmas.Hmm
 import BppProofs.Lemmas.HmmCache
+import BppProofs.Lemmas.HmmAuto
 /-!
 # C13 — HMM likelihood algorithms   (src/Bpp/Numeric/Hmm)
 
@@ -175,6 +176,36 @@ theorem history_dependent_after_exception :
   · simp only [RescObj.step, hb1]
   · simp only [RescObj.step, hb1]
   · simp only [RescObj.build, hb1, Option.map_none, Option.isNone_none]
+
+/-! ## Built-in transition models: AutoCorrelationTransitionMatrix (as repaired)
+
+`FullHmmTransitionMatrix` is not modelled (its rows are C19's simplices, its equilibrium vector is
+row 0 of `P^256` computed by C04's `pow` — exactly stationary only in the limit); it is judged on the
+implementation's answers only. -/
+
+/-- with at least two states and every `λ_i ∈ [0,1]` each row of the matrix is a probability vector -/
+theorem autocorr_row_stochastic (n : Nat) (hn : 2 ≤ n) (li : ℝ) (h0 : 0 ≤ li) (h1 : li ≤ 1) (i : Nat) (hi : i < n) :
+    ∑ j ∈ Finset.range n, autoEntry n li i j = 1 ∧ ∀ j, 0 ≤ autoEntry n li i j :=
+  ⟨autoEntry_row_sum n hn li i hi, autoEntry_nonneg n hn li h0 h1 i⟩
+
+/-- the equilibrium vector computed by `fireParameterChanged` is a genuine stationary distribution
+of that matrix: `π·P = π`, `Σ π = 1`, `π > 0` (every `λ_i < 1`, which the parameter constraint ]0,1[ enforces) -/
+theorem autocorr_stationary (n : Nat) (hn : 2 ≤ n) (lam : Nat → ℝ) (hl : ∀ i, i < n → lam i < 1) :
+    autoEq (vec n lam) = vec n (autoPi n lam)
+    ∧ (∀ j, j < n → ∑ k ∈ Finset.range n, autoPi n lam k * autoEntry n (lam k) k j = autoPi n lam j)
+    ∧ ∑ i ∈ Finset.range n, autoPi n lam i = 1 ∧ ∀ i, i < n → 0 < autoPi n lam i :=
+  ⟨autoEq_vec n lam, autoPi_stationary n hn lam hl⟩
+
+/-- the lazily cached matrix and the equilibrium vector always are those of the current `λ`'s,
+whatever the order of updates and queries -/
+theorem autocorr_history_independent {α : Type} [Scalar α] (n : Nat) (ops : List (AutoOp α)) :
+    (AutoTM.build n : AutoTM α).runA ops
+      = autoSpecRun n (List.replicate n (Scalar.ofRat 95 100)) (List.replicate n (Scalar.one / Scalar.ofInt n)) ops :=
+  AutoTM.runA_spec _ (by simp [AutoTM.build]) ops
+
+/-- with a single state the "matrix" is `[λ]`, not `[1]` (degenerate case, outside the theorem above) -/
+theorem autocorr_one_state_witness : autoEntry 1 (19 / 20 : ℝ) 0 0 ≠ 1 := by
+  simp [autoEntry]; norm_num
 
 /-! ## Non-vacuity -/
 
